@@ -667,7 +667,6 @@ class DefaultCodec(Codec):
                     )
 
             # Layer current keys on top of parent's keys
-            output_keys = dict()
             keys = obj.list_keys(_include_merge_parent=False)
             for k in keys:
                 result = obj.get(k)
@@ -689,13 +688,13 @@ class DefaultCodec(Codec):
                     content_key=partition_content_key,
                     from_parent=False,
                 )
-                output_keys[k] = index_entry
                 index[k] = index_entry
 
-            # If this is an InMemoryPartition, remember the output keys so they can be
-            # referred to when merging partitions in the future
+            # If this is an InMemoryPartition, remember the index it was stored with (entries
+            # inherited from its own merge parent included) so it can be referred to when
+            # merging partitions in the future
             if hasattr(obj, "_output_keys") and hasattr(obj, "_parent_data_source"):
-                obj._output_keys = output_keys
+                obj._output_keys = index
                 obj._parent_data_source = data_source
 
             # noinspection PyProtectedMember
